@@ -130,6 +130,8 @@ Definition lint_set_operator (op : string) (left right : ty) (is_literal : bool)
   else if mem_str op ["||="; "&&="] then lint_logical_operator left right
   else lint_assign_operator left right is_literal.
 
+Definition is_num_or_rtime (t : ty) : bool := match t with TInteger | TFloat | TRTime => true | _ => false end.
+
 (* comparison operators of lintInfixExpression: true = no diagnostic of severity ERROR.
    right_is_literal is isLiteralExpression(exp.Right) *)
 Definition lint_infix_compare (op : string) (left right : ty) (right_is_literal : bool) : bool :=
@@ -138,14 +140,18 @@ Definition lint_infix_compare (op : string) (left right : ty) (right_is_literal 
     let r := match right with TReqBackend => TBackend | t => t end in
     ty_eqb l r
   else if mem_str op [">"; ">="; "<"; "<="] then
-    match left with
-    | TInteger => match right with TInteger | TRTime => true | _ => false end
-    | TFloat | TRTime => match right with TInteger | TFloat | TRTime => true | _ => false end
-    | _ => false
-    end
+    (match left with
+     | TInteger => match right with TInteger | TRTime => true | _ => false end
+     | TFloat | TRTime => match right with TInteger | TFloat | TRTime => true | _ => false end
+     | _ => false
+     end)
+    (* RTIME against INTEGER/FLOAT (either way): the right operand must not be a literal *)
+    && negb (negb (Bool.eqb (ty_eqb left TRTime) (ty_eqb right TRTime)) && right_is_literal
+             && is_num_or_rtime left && is_num_or_rtime right)
   else if mem_str op ["~"; "!~"] then
     (match left with
-     | TString | TIP => match right with TString | TAcl | TRegex => true | _ => false end
+     | TString => match right with TString | TAcl | TRegex => true | _ => false end
+     | TIP => match right with TAcl => true | _ => false end     (* an IP matches ACLs only *)
      | _ => false
      end)
     && negb (ty_eqb right TString && negb right_is_literal)
@@ -216,7 +222,8 @@ Definition ref_rows_assign : list (string * (list string * list string)) :=
     ("RTIME",   (["RTIME"; "TIME"], ["INTEGER"; "FLOAT"]));
     ("TIME",    (["RTIME"; "TIME"], ["INTEGER"; "FLOAT"]));
     ("IP",      (["STRING"; "IP"], []));
-    ("BACKEND", (["BACKEND"; "REQBACKEND"], [])) ].
+    ("BACKEND", (["BACKEND"; "REQBACKEND"], []));
+    ("ACL",     (["ACL"], [])) ].
 Definition ref_rows_addsub : list (string * (list string * list string)) :=
   [ ("INTEGER", (["INTEGER"], ["FLOAT"; "RTIME"; "TIME"]));
     ("FLOAT",   (["INTEGER"; "FLOAT"], ["RTIME"; "TIME"]));
